@@ -51,7 +51,7 @@ def gen_knn_case(rng, tier, *, model=None, metrics=None, max_n=None, gclasses=No
     if allow_pre and rng.random() < 0.25:
         # pre-computed distances.  unsupervised: N x N matrix of a larger dataset, shuffled training subset, queries anywhere.
         # KNN-supervised demands an n_train x n_train matrix: training = a permutation of 0..n-1, validation/query indices inside it.
-        mk = gen.pick(rng, ["M1", "M2", "M3"])
+        mk = gen.pick(rng, ["M1", "M2", "M3", "MB"])
         if model == "knn":
             N = n
             I = rng.permutation(n)
@@ -101,10 +101,22 @@ def fit_model(case, m=None, before_final=None):
     if case.get("refit"):
         # history: the same model object was fitted before on other data of the same shape (reversed rows, shifted values)
         X0, Y0 = (X[::-1] * 1.5 + 0.25).copy(), Y[::-1].copy()
+        # the earlier fit ran with a LARGER k range where the data allows it (results remembered per k would outlive it)
+        big = min(len(X) - 1, case["max_k"] + 2)
+        try:
+            m.max_k = int(big)
+        except Exception:  # noqa: BLE001
+            pass
         if case["model"] == "knn":
             safe_call(m.fit, X0, Y0, V.copy(), YV.copy(), I, np.array(pre["IV"], dtype=int) if pre else None)
         else:
             safe_call(m.fit, X0, Y0, I)
+        try:
+            if case["model"] == "unsup":
+                m.min_k = int(case.get("min_k", 1))
+            m.max_k = int(case["max_k"])
+        except Exception:  # noqa: BLE001
+            pass
         if len(X) % 2 == 0:
             # same array objects, overwritten in place, handed to the final fit
             X0[:], Y0[:] = X, Y
